@@ -588,9 +588,9 @@ Definition lin_check (file : list N) : af_report :=
                                      match expect k_xref (at_off file pv) with
                                      | Some r0 =>
                                          match next_tok r0 with
-                                         | Some (TInt _, r1) =>
+                                         | Some (StInt _, r1) =>
                                              match next_tok r1 with
-                                             | Some (TInt _, r2) =>
+                                             | Some (StInt _, r2) =>
                                                  let after_count := offset_of total r2 in
                                                  let entry := offset_of total (af_skip_sp r2) in
                                                  af_when (negb ((after_count <=? T) && (T <? entry))) (af_err 10 (entry - 1) T)
